@@ -97,6 +97,7 @@ func loadWorld() (*World, error) {
 	if err := w.specs.loadDir(repoDir, dirs); err != nil {
 		return nil, err
 	}
+	globalSpecs = w.specs
 	return w, nil
 }
 
